@@ -65,7 +65,11 @@ package disk
 //@ func (c *SizedLRU) Unreserve(size int64) error
 //@   serves C03
 //@   requires c != nil && c.currentSize >= 0 && c.reservedSize >= 0
+//@   requires[C07] lock: locked
+//@   requires[C03,C07] own: size <= held
 //@   modifies c.currentSize, c.reservedSize
+//@   gmodifies held
+//@   gensures (result == nil ==> held == old(held) - size) && (result != nil ==> held == old(held))
 //@   ensures[C03] ok: result == nil ==> (size >= 0 && c.currentSize == old(c.currentSize) - size && c.reservedSize == old(c.reservedSize) - size && (size > 0 ==> c.currentSize >= 0 && c.reservedSize >= 0))
 //@   ensures[C03] err: result != nil ==> (c.currentSize == old(c.currentSize) && c.reservedSize == old(c.reservedSize))
 //@   ensures[C03] total: (size >= 0 && size <= old(c.reservedSize) && size <= old(c.currentSize)) ==> result == nil
@@ -80,6 +84,7 @@ package disk
 //@ func (c *SizedLRU) removeElement(e *list.Element)
 //@   serves C03 C04 C05 C07 C17
 //@   requires c != nil && lruIndex(c)
+//@   requires[C07] lock: locked
 //@   requires elem: e != nil && e.owner == ref(c.ll)
 //@   requires nowrap: 0 - B62() <= c.currentSize && c.currentSize <= B62() && 0 - B62() <= c.uncompressedSize && c.uncompressedSize <= B62()
 //@   modifies c.currentSize, c.uncompressedSize, c.ll.seq, mapof(c.cache), #list.Element.owner, evq
@@ -93,7 +98,10 @@ package disk
 //@ func (c *SizedLRU) Get(key string) (lruItem, *list.Element)
 //@   serves C03 C05 C07
 //@   requires lruInv(c)
+//@   requires[C07] lock: locked
 //@   modifies c.ll.seq
+//@   gmodifies hitN, hitSize
+//@   gensures (result1 != nil ==> hitN == old(hitN) + 1 && hitSize == result0.size) && (result1 == nil ==> hitN == old(hitN) && hitSize == old(hitSize))
 //@   ensures[C03,C07] inv: lruInv(c)
 //@   ensures[C05] hit: old(has(c.cache, strkey(key))) ==> (result1 == c.cache[strkey(key)] && result1 != nil && result1.owner == ref(c.ll) &&
 //@       c.ll.seq == mtf(old(c.ll.seq), payload(result1.Value)) && seqfront(c.ll.seq) == payload(result1.Value) &&
@@ -103,7 +111,10 @@ package disk
 //@ func (c *SizedLRU) Reserve(size int64) error
 //@   serves C03 C05 C07 C17
 //@   requires lruInv(c)
+//@   requires[C07] lock: locked
 //@   modifies c.currentSize, c.reservedSize, c.uncompressedSize, c.ll.seq, mapof(c.cache), #list.Element.owner, evq, qobs, c.totalDiskSizePeak
+//@   gmodifies held
+//@   gensures (result == nil ==> held == old(held) + size) && (result != nil ==> held == old(held))
 //@   ensures[C03,C07] inv: lruInv(c)
 //@   ensures[C03] ok: result == nil ==> (size >= 0 && c.reservedSize == old(c.reservedSize) + size && dropped(c.ll.seq, old(c.ll.seq)))
 //@   ensures[C03,C17] refused: result != nil ==> (c.reservedSize == old(c.reservedSize) && c.currentSize == old(c.currentSize) && c.ll.seq == old(c.ll.seq) && evq == old(evq) && c.uncompressedSize == old(c.uncompressedSize))
@@ -125,6 +136,7 @@ package disk
 //@ func (c *SizedLRU) Add(key string, value lruItem) (ok bool)
 //@   serves C03 C04 C05 C07 C09 C17
 //@   requires lruInv(c)
+//@   requires[C07] lock: locked
 //@   requires sizes: 0 <= value.sizeOnDisk && value.sizeOnDisk <= B62() && 0 <= value.size && value.size <= B62()
 //@   assume nologicaloverflow: c.uncompressedSize + value.size + 4096 <= B62()
 //@   modifies c.currentSize, c.uncompressedSize, c.ll.seq, mapof(c.cache), #list.Element.owner, #list.Element.Value, evq, qobs, c.totalDiskSizePeak,
